@@ -302,7 +302,13 @@ func (p *c07) judgeConn(out *Outcome, sc *C07Scenario, pipe *sim.Pipe, srv *refs
 	if pol == "mandatory" {
 		for _, v := range clearCmds {
 			if v != "EHLO" && v != "HELO" && v != "STARTTLS" && v != "QUIT" {
-				out.violate("C07:mandatory-tls-cleartext-command:"+v, "mandatory TLS: the client sent %q in clear on its %s connection (cleartext dialogue: %q); server behaviour %s", v, which, clipStr(string(clear), 300), sc.Label)
+				cls := v
+				switch v {
+				case "AUTH", "MAIL", "RCPT", "DATA", "NOOP", "RSET", "VRFY":
+				default:
+					cls = "other-data" // SASL responses, message content, …
+				}
+				out.violate("C07:mandatory-tls-cleartext-command:"+cls, "mandatory TLS: the client sent %q in clear on its %s connection (cleartext dialogue: %q); server behaviour %s", v, which, clipStr(string(clear), 300), sc.Label)
 			}
 		}
 	}
